@@ -2,6 +2,8 @@ import Model.NumberTheory
 import Proofs.NTInv
 import Proofs.NTInvFallback
 import Proofs.NTJacobi
+import Proofs.NTJacobiDepth
+import Proofs.NTGuards
 import Proofs.NTSqrt
 import Proofs.NTCip
 import Proofs.NTCipPoly
@@ -64,12 +66,24 @@ example : Int.gcd (-3) 2305843009213693951 = 1 ∧ inverseMod (-3) 2305843009213
 
 /-! ## jacobi -/
 
-/-- for every integer `a` and every odd `n ≥ 3` the code's `jacobi(a, n)` is the Jacobi symbol.  Mathlib's
+/-- for every integer `a` and every odd `n ≥ 3` the code's `jacobi(a, n)` is the Jacobi symbol (assumption: no
+`RecursionError`, see `jacobi_recursion_depth`: the recursion is at most `2·bitlen(n) + 1` deep).  Mathlib's
 `jacobiSym a n` is *by definition* the product of the Legendre symbols `legendreSym q a` over the prime
 factorisation `q ∈ n.primeFactorsList` (with multiplicity) — the wording of the property (`jacobi_is_product`). -/
 theorem jacobi_eq_jacobiSym (a : Int) (n : Nat) (hn3 : 3 ≤ n) (hodd : n % 2 = 1) :
     jacobi a n = .ok (jacobiSym a n) :=
   jacobi_eq a n hn3 hodd
+
+/-- **recursion depth.**  Python's `jacobi` is RECURSIVE; `NT.jacobiF d a n` is the model with at most `d` nested calls
+(`PyErr.other` when more would be needed).  `2·⌊log₂ n⌋ + 3` nested calls always suffice — for an `n` of `k` bits that is
+at most `2k + 1` frames.  ASSUMPTION of `jacobi_eq_jacobiSym`, `sqrt_*` (and everything built on them): CPython's
+recursion limit (default 1000, minus the caller's frames) is not hit, which this bound guarantees for moduli up to ≈ 480
+bits; for the 512/521-bit curve moduli the measured depth is ≈ 0.4 per bit (≤ 220 in the searches) — the tight
+worst-case constant (≈ 1.44 per bit) is not proved; from ≈ 4096-bit moduli on a `RecursionError` is possible and is NOT
+modelled. -/
+theorem jacobi_recursion_depth (a : Int) (n : Nat) (hn3 : 3 ≤ n) (hodd : n % 2 = 1) :
+    jacobiF (2 * Nat.log2 n + 3) a n = .ok (jacobiSym a n) :=
+  jacobi_depth a n hn3 hodd
 
 /-- the definition of `jacobiSym` spelled out: product of Legendre symbols over the prime factorisation -/
 theorem jacobi_is_product (a : Int) (n : Nat) (hn3 : 3 ≤ n) (hodd : n % 2 = 1) :
@@ -191,5 +205,21 @@ example : squareRootModPrime 2 7 = .ok 4 ∧ squareRootModPrime 3 7 = .error .sq
     squareRootModPrime 4 29 = .ok 27 ∧ squareRootModPrime 5 29 = .ok 18 ∧ squareRootModPrime 2 29 = .error .squareRoot ∧
     squareRootModPrime 3 17 = .error .squareRoot ∧ squareRootModPrime 2 17 = .ok 6 ∧
     squareRootModPrime 2 1553 = .ok 189 := by decide +kernel
+
+/-! ## guard ties (translator `gen_rest.py`, `Generated/RestGuards.lean`) -/
+
+/-- `square_root_mod_prime`: the model is the same control flow over the guards and integer expressions that
+`gen_rest.py` extracts from the source on every run -/
+theorem sqrt_guard_tie (a p : Int) : squareRootModPrime a p = NTGuards.sqrtG a p := NTGuards.sqrt_guard_tie a p
+
+/-- `jacobi`: the pieces the model is built from (`gen_nt.py`) coincide with the independent extraction of `gen_rest.py` -/
+theorem jacobi_guard_tie (a n a1 e s : Int) :
+    Gen.NT.jacobi_assert1 a n = Gen.Rest.numbertheory_jacobi_assert0 n ∧
+    Gen.NT.jacobi_assert2 a n = Gen.Rest.numbertheory_jacobi_assert1 n ∧
+    Gen.NT.jacobi_loop_cond a1 = Gen.Rest.numbertheory_jacobi_while0 a1 ∧
+    Gen.NT.jacobi_loop_body a1 e = (Gen.Rest.numbertheory_jacobi_e0 a1, Gen.Rest.numbertheory_jacobi_e1 e) ∧
+    (Int.fmod a n = Gen.Rest.numbertheory_jacobi_let0 a n) ∧ (Int.fmod n a1 = Gen.Rest.numbertheory_jacobi_e2 n a1) ∧
+    (-s = Gen.Rest.numbertheory_jacobi_let5 s) :=
+  NTGuards.jacobi_guard_tie a n a1 e s
 
 end C15
